@@ -272,6 +272,9 @@ func (r *SparseReal64Matrix) Jacobian(f func(ConstVector) ConstVector, x_ MagicV
      n = y.Dim()
      m = x.Dim()
     *r = *NullSparseReal64Matrix(n, m)
+  } else {
+    // a recycled receiver may hold entries where the new derivative is zero
+    r.Reset()
   }
   // copy derivatives
   for i := 0; i < n; i++ {
@@ -291,6 +294,9 @@ func (r *SparseReal64Matrix) Hessian(f func(ConstVector) ConstScalar, x_ MagicVe
      n = x_.Dim()
      m = x_.Dim()
     *r = *NullSparseReal64Matrix(n, m)
+  } else {
+    // a recycled receiver may hold entries where the new derivative is zero
+    r.Reset()
   }
   x := x_.CloneMagicVector()
   x.Variables(2)
